@@ -20,7 +20,7 @@
               that the old defects stay expressible.  Lemmas hold for EVERY variant; the
               property theorems flag_complete / well_typed_evaluates are stated at the live one. *)
 From Coq Require Import ZArith QArith Reals List Bool Ring.
-From Verif Require Import Base.Num Base.Vec C04.Model C04.ModelIP C04.ModelMem C04.Cplx Gen.OpTables C04.Tables C04.Proofs C04.ProofsIP C04.ProofsMem C04.Instances C04.Refuted.
+From Verif Require Import Base.Num Base.Vec C04.Model C04.ModelIP C04.ModelMem C04.Cplx Gen.OpTables C04.Tables C04.Dispatch Gen.OpDispatch C04.DispatchModel C04.DispatchProofs C04.Proofs C04.ProofsIP C04.ProofsMem C04.Instances C04.Refuted.
 Import ListNotations.
 
 (* T1 (core).  Over ANY commutative ring carried by the Num class (covers R, C, Qc): for every
@@ -285,3 +285,26 @@ Example contract_propagation : forall (T : Type) (kon : nat -> lcontract) (a b :
   /\ ofresh kon (OComp fn a b) = (ofresh kon a || ofresh kon b)%bool
   /\ ofresh kon (OLVec a v) = true /\ ofresh kon (OSum fn a b) = true /\ ofresh kon (OVecSum a v) = true.
 Proof. intros. repeat split; reflexivity. Qed.
+
+(* Tie by REGENERATION, dispatch.  Gen/OpDispatch.v is re-emitted on every run from the BODIES of
+   Operator.__add__/__radd__/__sub__/__rsub__/__mul__/__matmul__/__rmul__/__rmatmul__/__pow__/
+   __truediv__/__neg__, OperatorRightScalarMult.__mul__ and Functional.__mul__/__rmul__/__add__/
+   __sub__ (+ `__radd__ = __add__`) as decision trees over isinstance / membership / is_linear /
+   == 0 tests, together with the MRO owner of each dunder for the 17 expression classes.
+   [build_tab] interprets those trees (C04/Dispatch.v fixes the meaning of each test and of each
+   returned expression; C04/DispatchModel.v how Python picks the method).  The hand-written
+   [build], about which every theorem above speaks, IS that interpretation -- for every source
+   expression: a changed dispatch (other side, dropped / reordered branch, other class) breaks
+   this proof, not only the correspondence. *)
+Theorem build_follows_source_dispatch : forall (T : Type) (N : Num T) (vt : variant),
+  ring_theory nzero none_ nadd nmul nsub nopp (@eq T) ->
+  (forall u c : T, ndiv u c = nmul (ndiv none_ c) u) ->
+  (forall a b : T, neqb a b = true -> a = b) ->
+  forall s : sexpr T, sleaves_ok s -> build vt s = build_tab vt s.
+Proof. exact @DispatchProofs.build_eq_tab. Qed.
+Print Assumptions build_follows_source_dispatch.
+
+(* `@` is `*`: the regenerated __matmul__ / __rmatmul__ trees just delegate *)
+Theorem matmul_is_mul : forall (T : Type) (N : Num T) (vt : variant) (a : oexpr T) (other : operand),
+  py_matmul vt a other = py_mul vt a other /\ py_rmatmul vt a other = py_rmul vt a other.
+Proof. intros; split; reflexivity. Qed.
